@@ -305,7 +305,7 @@ package route
 //@   ensures[address_usable; C14] err == nil ==> metricsEndpoint(addr) && c.Addr == addr
 //@   ensures[required_options; C20] err == nil ==> c.ApiKey == apiKey && c.SchemasFile == schemasFile && c.AggregationFile == aggregationFile && apiKey != "" && schemasFile != "" && aggregationFile != ""
 //@   ensures[documented_defaults; C20] err == nil ==> c.BufSize == 10000000 && c.FlushMaxNum == 5000 && c.FlushMaxWait == 500000000 && c.Timeout == 10000000000 && c.Concurrency == 100 && c.OrgID == 1
-//@        && c.SSLVerify && !c.Blocking && !c.Spool && c.ErrBackoffMin == 100000000
+//@        && c.SSLVerify && !c.Blocking && !c.Spool && c.ErrBackoffMin == 100000000 && c.ErrBackoffFactor == f64lit("3/2")
 //@
 //@ func getGrafanaNetAddr(addr string) (string, string, string)
 //@   property C14
